@@ -1,5 +1,6 @@
-(* Stage B, part 3: the VM model running [pcode] from an empty stack ends with exactly the value - or stops with
-   exactly the error class - that [run_stmts] gives; variable i lives in global slot i. *)
+(* Stages B-D, part 3: the VM model running [pcode] from an empty stack ends with exactly the value - or stops with
+   exactly the error class - that [run_stmts] gives (whenever the latter's fuel suffices); variable i lives in global
+   slot i; conditionals and loops, nested to any depth, run through their jumps. *)
 From Coq Require Import List ZArith NArith Bool Arith Lia.
 Require Import RV.model.Syntax RV.model.Compiler RV.model.VM.
 Require Import RV.proofs.VMScalarProofs.
@@ -69,207 +70,316 @@ Section VarVM.
   Proof. induction l1; cbn; auto. Qed.
   Lemma at1 (l1 : list N) x y l2 : nth (length l1 + 1) (l1 ++ x :: y :: l2) 0%N = y.
   Proof. induction l1; cbn; auto. Qed.
-  Lemma need_pos e : 1 <= F.need e.
-  Proof. induction e; cbn [F.need]; lia. Qed.
+  Lemma step_jumpback f ip st s :
+    nth_error instr ip = Some 10%N -> runs (S f) ip st s = runs f (ip - opnd ip 1) st s.
+  Proof. intros H. cbn [exec]. rewrite H. reflexivity. Qed.
 
-  (* ---------------------------------------------------------------- the statements of a branch *)
-  (* [room]: global slots still to be claimed by later declarations; branches declare nothing *)
-  Lemma vm_simple rho room s m base pre post :
-    vm_inv rho room s -> P.wf_simple (length rho) m = true ->
-    instr = pre ++ fst (P.simple_code base m) ++ post ->
-    (forall i kk, nth_error (snd (P.simple_code base m)) i = Some kk -> nth (base + i) (code_consts c) (KInt 0) = kk) ->
-    below + F.need (P.simple_exp m) <= MAXSTACK ->
-    exists n s',
-      (match P.run_simple rho m with inl (rho', _) => vm_inv rho' room s' | inr _ => True end) /\
-      forall f,
-        match P.run_simple rho m with
-        | inr x => runs (n + f) (length pre) [] s = (RErr (cls x) s', defers)
-        | inl (rho', v) => runs (n + f) (length pre) [] s =
-                           runs f (length pre + length (fst (P.simple_code base m)))
-                                (if P.is_expr_simple m then [inj v] else []) s'
-        end.
+
+  Ltac split_consts Hc := let i := fresh "i" in let kk := fresh "kk" in let Hik := fresh "Hik" in
+    intros i kk Hik; apply Hc; rewrite nth_error_app1; [exact Hik|apply nth_error_Some; congruence].
+
+  Lemma consts_l (ka kb : list konst) base :
+    (forall i k, nth_error (ka ++ kb) i = Some k -> nth (base + i) (code_consts c) (KInt 0) = k) ->
+    forall i k, nth_error ka i = Some k -> nth (base + i) (code_consts c) (KInt 0) = k.
+  Proof. intros H i k Hi. apply H. rewrite nth_error_app1; [exact Hi|]. apply nth_error_Some. congruence. Qed.
+  Lemma consts_r (ka kb : list konst) base :
+    (forall i k, nth_error (ka ++ kb) i = Some k -> nth (base + i) (code_consts c) (KInt 0) = k) ->
+    forall i k, nth_error kb i = Some k -> nth (base + length ka + i) (code_consts c) (KInt 0) = k.
   Proof.
-    intros Hinv Hwf Hi Hc Hn. pose proof (vm_inv_globals_ok rho room s Hinv) as Hg.
-    destruct m as [i e|e]; cbn [P.simple_code P.simple_exp P.wf_simple P.is_expr_simple P.run_simple] in *.
-    - apply andb_true_iff in Hwf. destruct Hwf as [Hilt Hwf]. apply Nat.ltb_lt in Hilt.
-      destruct (F.cexp base e) as [ce ke] eqn:Ee. cbn [fst snd] in *.
-      assert (Hi' : instr = pre ++ fst (F.cexp base e) ++ ([opStoreGlobal; N.of_nat i] ++ post))
-        by (rewrite Ee; cbn [fst]; rewrite Hi, <- !app_assoc; reflexivity).
-      assert (Hc' : forall j kk, nth_error (snd (F.cexp base e)) j = Some kk -> nth (base + j) (code_consts c) (KInt 0) = kk)
-        by (rewrite Ee; exact Hc).
-      destruct (vm_scalar tabs c below frames free defers is_main s rho Hg e base pre _ [] Hwf Hi' Hc' ltac:(cbn [length]; lia)) as [n Hr].
-      rewrite Ee in Hr. cbn [fst] in Hr. unfold outcome_of in Hr.
-      destruct (F.sev rho e) as [v|x].
-      + exists (n + 1), (upd_globals s (lset (globals s) i (inj v))).
-        split; [apply vm_inv_set; assumption|]. intros f.
-        rewrite <- Nat.add_assoc, Hr. cbn [Nat.add].
-        assert (Hx : instr = (pre ++ ce) ++ opStoreGlobal :: N.of_nat i :: post) by (rewrite Hi, <- !app_assoc; reflexivity).
-        rewrite (step_store f (length pre + length ce) [] (inj v) s) by (rewrite Hx, <- app_length; apply at0).
-        assert (E : nth (length pre + length ce + 1) instr 0%N = N.of_nat i) by (rewrite Hx, <- app_length; apply at1).
-        rewrite E, Nat2N.id, app_length. cbn [length].
-        replace (length pre + (length ce + 2)) with (length pre + length ce + 2) by lia. reflexivity.
-      + exists n, s. split; [exact Logic.I|]. intros f. exact (Hr f).
-    - destruct (vm_scalar tabs c below frames free defers is_main s rho Hg e base pre post [] Hwf Hi Hc ltac:(cbn [length]; lia)) as [n Hr].
-      unfold outcome_of in Hr. exists n, s.
-      destruct (F.sev rho e) as [v|x]; (split; [try exact Hinv; exact Logic.I|]); intros f; exact (Hr f).
+    intros H i k Hi. rewrite <- Nat.add_assoc. apply H.
+    rewrite nth_error_app2 by lia. replace (length ka + i - length ka) with i by lia. exact Hi.
   Qed.
 
-  Lemma simples_need_cons m r : P.simples_need (m :: r) = Nat.max (F.need (P.simple_exp m)) (P.simples_need r).
-  Proof. reflexivity. Qed.
-  Lemma simples_need_pos l : 1 <= P.simples_need l.
-  Proof. induction l as [|m r IH]; [cbn; lia|rewrite simples_need_cons; lia]. Qed.
-
-  Lemma vm_simples : forall l rho room s base pre post last,
-    l <> [] -> vm_inv rho room s -> forallb (P.wf_simple (length rho)) l = true ->
-    instr = pre ++ fst (P.simples_code base l) ++ post ->
-    (forall i kk, nth_error (snd (P.simples_code base l)) i = Some kk -> nth (base + i) (code_consts c) (KInt 0) = kk) ->
-    below + P.simples_need l <= MAXSTACK ->
-    exists n s',
-      (match P.run_simples rho l last with inl (rho', _) => vm_inv rho' room s' | inr _ => True end) /\
-      forall f,
-        match P.run_simples rho l last with
-        | inr x => runs (n + f) (length pre) [] s = (RErr (cls x) s', defers)
-        | inl (rho', v) => runs (n + f) (length pre) [] s =
-                           runs f (length pre + length (fst (P.simples_code base l))) [inj v] s'
-        end.
+  (* ---------------------------------------------------------------- evaluate, then store into a global slot *)
+  Lemma vm_store rho room s e base pre post slot :
+    vm_inv rho room s -> F.wf (length rho) e = true ->
+    instr = pre ++ fst (F.cexp base e) ++ [opStoreGlobal; N.of_nat slot] ++ post ->
+    (forall i kk, nth_error (snd (F.cexp base e)) i = Some kk -> nth (base + i) (code_consts c) (KInt 0) = kk) ->
+    below + F.need e <= MAXSTACK ->
+    exists k, forall f,
+      match F.sev rho e with
+      | inl v => runs (k + f) (length pre) [] s =
+                 runs f (length pre + length (fst (F.cexp base e) ++ [opStoreGlobal; N.of_nat slot])) []
+                      (upd_globals s (lset (globals s) slot (inj v)))
+      | inr x => runs (k + f) (length pre) [] s = (RErr (cls x) s, defers)
+      end.
   Proof.
-    induction l as [|m r IH]; intros rho room s base pre post last Hne Hinv Hwf Hi Hc Hn; [contradiction|].
-    cbn [forallb] in Hwf. apply andb_true_iff in Hwf. destruct Hwf as [Hw0 Hwr].
-    rewrite simples_need_cons in Hn. rewrite PF.run_simples_cons.
-    destruct r as [|m2 r2].
-    - (* the last statement of the branch *)
-      rewrite PF.simples_code_single in Hi, Hc |- *.
-      destruct (P.simple_code base m) as [cc ks] eqn:Es. cbn [fst snd] in *.
-      assert (Hi' : instr = pre ++ fst (P.simple_code base m) ++ ((if P.is_expr_simple m then [] else [opNil]) ++ post))
+    intros Hinv Hwf Hi Hc Hn. pose proof (vm_inv_globals_ok rho room s Hinv) as Hg.
+    destruct (vm_scalar tabs c below frames free defers is_main s rho Hg e base pre _ [] Hwf Hi Hc ltac:(cbn [length]; lia)) as [n Hr].
+    unfold outcome_of in Hr.
+    destruct (F.sev rho e) as [v|x].
+    - exists (n + 1). intros f. rewrite <- Nat.add_assoc, Hr. cbn [Nat.add].
+      set (ce := fst (F.cexp base e)) in *.
+      assert (Hx : instr = (pre ++ ce) ++ opStoreGlobal :: N.of_nat slot :: post) by (rewrite Hi, <- !app_assoc; reflexivity).
+      rewrite (step_store f (length pre + length ce) [] (inj v) s) by (rewrite Hx, <- app_length; apply at0).
+      assert (E : nth (length pre + length ce + 1) instr 0%N = N.of_nat slot) by (rewrite Hx, <- app_length; apply at1).
+      rewrite E, Nat2N.id, app_length. cbn [length].
+      replace (length pre + (length ce + 2)) with (length pre + length ce + 2) by lia. reflexivity.
+    - exists n. intros f. exact (Hr f).
+  Qed.
+
+  (* ---------------------------------------------------------------- statements, lists, blocks, loops *)
+  Definition consts_at (base : nat) (ks : list konst) : Prop :=
+    forall i kk, nth_error ks i = Some kk -> nth (base + i) (code_consts c) (KInt 0) = kk.
+
+  Definition after (r : (list F.sval * F.sval) + F.serr) (room : nat) (s : mstate) (start stop : nat)
+             (stack : F.sval -> list value) : Prop :=
+    exists k s',
+      match r with
+      | inr x => forall f, runs (k + f) start [] s = (RErr (cls x) s', defers)
+      | inl (rho', v) => vm_inv rho' room s' /\ forall f, runs (k + f) start [] s = runs f stop (stack v) s'
+      end.
+
+  (* what holds of one statement run with source fuel n *)
+  Definition stmt_vm (n : nat) : Prop :=
+    forall st rho room s base pre post top r,
+      vm_inv rho (P.ndecls [st] + room) s -> P.wf_stmt top (length rho) st = true ->
+      instr = pre ++ fst (P.stmt_code (length rho) base st) ++ post ->
+      consts_at base (snd (P.stmt_code (length rho) base st)) ->
+      below + P.sneed st <= MAXSTACK ->
+      P.run_stmt n rho st = Some r ->
+      after r room s (length pre) (length pre + length (fst (P.stmt_code (length rho) base st)))
+            (fun v => if P.is_expr_stmt st then [inj v] else []).
+
+  Lemma ndecls_split st r : P.ndecls (st :: r) = P.ndecls [st] + P.ndecls r.
+  Proof. destruct st; reflexivity. Qed.
+
+  Lemma vm_list n : stmt_vm n -> forall l rho room s base pre post last top r,
+    l <> [] -> vm_inv rho (P.ndecls l + room) s -> P.wf_stmts top (length rho) l = true ->
+    instr = pre ++ fst (P.pcode (length rho) base l) ++ post ->
+    consts_at base (snd (P.pcode (length rho) base l)) ->
+    below + P.max_need l <= MAXSTACK ->
+    P.run_stmts n rho l last = Some r ->
+    after r room s (length pre) (length pre + length (fst (P.pcode (length rho) base l))) (fun v => [inj v]).
+  Proof.
+    intros Hst. induction l as [|st r0 IH]; intros rho room s base pre post last top r Hne Hinv Hwf Hi Hc Hn Hr; [contradiction|].
+    rewrite PF.wf_stmts_cons in Hwf. apply andb_true_iff in Hwf. destruct Hwf as [Hws Hwr].
+    pose proof (PF.sneed_pos st) as Hpos.
+    rewrite PF.max_need_cons in Hn. rewrite PF.run_stmts_cons in Hr.
+    rewrite ndecls_split, <- Nat.add_assoc in Hinv.
+    destruct r0 as [|st2 r2].
+    - (* the last statement *)
+      rewrite PF.pcode_single in Hi, Hc |- *.
+      destruct (P.stmt_code (length rho) base st) as [cc ks] eqn:Es. cbn [fst snd] in *.
+      assert (Hi' : instr = pre ++ fst (P.stmt_code (length rho) base st) ++ ((if P.is_expr_stmt st then [] else [opNil]) ++ post))
         by (rewrite Es; cbn [fst]; rewrite Hi, <- !app_assoc; reflexivity).
-      assert (Hc' : forall i kk, nth_error (snd (P.simple_code base m)) i = Some kk -> nth (base + i) (code_consts c) (KInt 0) = kk)
-        by (rewrite Es; exact Hc).
-      destruct (vm_simple rho room s m base pre _ Hinv Hw0 Hi' Hc' ltac:(lia)) as [n [s1 [Hinv1 Hr]]].
-      rewrite Es in Hr. cbn [fst] in Hr.
-      destruct (P.run_simple rho m) as [[rho1 v1]|x] eqn:Er.
-      + cbn [P.run_simples].
-        destruct (P.is_expr_simple m) eqn:Ex.
-        * exists n, s1. split; [exact Hinv1|]. intros f. rewrite Hr, app_nil_r. reflexivity.
-        * exists (n + 1), s1. split; [exact Hinv1|]. intros f. rewrite <- Nat.add_assoc, Hr. cbn [Nat.add].
+      assert (Hc' : consts_at base (snd (P.stmt_code (length rho) base st))) by (rewrite Es; exact Hc).
+      destruct (P.run_stmt n rho st) as [[[rho1 v1]|x]|] eqn:Er; [| |discriminate].
+      + destruct (Hst st rho (P.ndecls [] + room) s base pre _ top _ Hinv Hws Hi' Hc' ltac:(lia) Er) as [k [s1 [Hinv1 Hrun]]].
+        rewrite Es in Hrun. cbn [fst] in Hrun.
+        cbn in Hr. inversion Hr; subst r. clear Hr.
+        destruct (P.is_expr_stmt st) eqn:Ex.
+        * exists k, s1. split; [exact Hinv1|]. intros f. rewrite Hrun, app_nil_r. reflexivity.
+        * exists (k + 1), s1. split; [exact Hinv1|]. intros f. rewrite <- Nat.add_assoc, Hrun. cbn [Nat.add].
           assert (Hx : instr = (pre ++ cc) ++ opNil :: post) by (rewrite Hi, <- !app_assoc; reflexivity).
           rewrite (step_push tabs c below frames free defers is_main s1 f (length pre + length cc) [] opNil VNil);
-            [|rewrite Hx, <- app_length; apply at0|auto|pose proof (need_pos (P.simple_exp m)); cbn [length]; lia].
+            [|rewrite Hx, <- app_length; apply at0|auto|cbn [length]; lia].
           rewrite app_length. cbn [length].
           replace (length pre + (length cc + 1)) with (S (length pre + length cc)) by lia.
-          destruct m; try discriminate. cbn [P.run_simple] in Er. destruct (F.sev rho e); inversion Er. reflexivity.
-      + exists n, s1. split; [exact Logic.I|]. intros f. exact (Hr f).
+          rewrite (PF.run_stmt_value n rho st rho1 v1 Er Ex). reflexivity.
+      + destruct (Hst st rho (P.ndecls [] + room) s base pre _ top _ Hinv Hws Hi' Hc' ltac:(lia) Er) as [k [s1 Hrun]].
+        inversion Hr; subst r. exists k, s1. exact Hrun.
     - (* more statements follow *)
-      assert (Hr2 : m2 :: r2 <> []) by discriminate.
-      rewrite PF.simples_code_cons2 in Hi, Hc |- *.
-      destruct (P.simple_code base m) as [cc ks] eqn:Es.
-      destruct (P.simples_code (base + length ks) (m2 :: r2)) as [cr kr] eqn:Ep. cbn [fst snd] in *.
-      set (pops := if P.is_expr_simple m then [opPopTop] else []) in *.
-      assert (Hi' : instr = pre ++ fst (P.simple_code base m) ++ (pops ++ cr ++ post))
+      assert (Hr2 : st2 :: r2 <> []) by discriminate.
+      rewrite PF.pcode_cons2 in Hi, Hc |- *.
+      destruct (P.stmt_code (length rho) base st) as [cc ks] eqn:Es.
+      destruct (P.pcode (P.next_k (length rho) st) (base + length ks) (st2 :: r2)) as [cr kr] eqn:Ep. cbn [fst snd] in *.
+      set (pops := if P.is_expr_stmt st then [opPopTop] else []) in *.
+      assert (Hi' : instr = pre ++ fst (P.stmt_code (length rho) base st) ++ (pops ++ cr ++ post))
         by (rewrite Es; cbn [fst]; rewrite Hi, <- !app_assoc; reflexivity).
-      assert (Hc' : forall i kk, nth_error (snd (P.simple_code base m)) i = Some kk -> nth (base + i) (code_consts c) (KInt 0) = kk).
-      { rewrite Es. cbn [snd]. intros i kk Hik. apply Hc. rewrite nth_error_app1; [exact Hik|]. apply nth_error_Some. congruence. }
-      destruct (vm_simple rho room s m base pre _ Hinv Hw0 Hi' Hc' ltac:(lia)) as [n [s1 [Hinv1 Hr]]].
-      rewrite Es in Hr. cbn [fst] in Hr.
-      destruct (P.run_simple rho m) as [[rho1 v1]|x] eqn:Er.
-      2:{ exists n, s1. split; [exact Logic.I|]. intros f. exact (Hr f). }
-      pose proof (PF.run_simple_length rho m rho1 v1 Er) as Hlen1. rewrite <- Hlen1 in Hwr.
+      assert (Hc' : consts_at base (snd (P.stmt_code (length rho) base st))) by (rewrite Es; exact (consts_l ks kr base Hc)).
+      destruct (P.run_stmt n rho st) as [[[rho1 v1]|x]|] eqn:Er; [| |discriminate].
+      2:{ destruct (Hst st rho _ s base pre _ top _ Hinv Hws Hi' Hc' ltac:(lia) Er) as [k [s1 Hrun]].
+          inversion Hr; subst r. exists k, s1. exact Hrun. }
+      destruct (Hst st rho _ s base pre _ top _ Hinv Hws Hi' Hc' ltac:(lia) Er) as [k [s1 [Hinv1 Hrun]]].
+      rewrite Es in Hrun. cbn [fst] in Hrun.
+      pose proof (PF.run_stmt_length n rho st top rho1 v1 Hws Er) as Hlen1.
       set (Q := pre ++ cc ++ pops).
       assert (HQ : length Q = length pre + length cc + length pops) by (unfold Q; rewrite !app_length; lia).
-      assert (Hi2 : instr = Q ++ fst (P.simples_code (base + length ks) (m2 :: r2)) ++ post)
+      rewrite <- Hlen1 in Ep, Hwr.
+      assert (Hi2 : instr = Q ++ fst (P.pcode (length rho1) (base + length ks) (st2 :: r2)) ++ post)
         by (rewrite Ep; cbn [fst]; rewrite Hi; unfold Q; rewrite <- !app_assoc; reflexivity).
-      assert (Hc2 : forall i kk, nth_error (snd (P.simples_code (base + length ks) (m2 :: r2))) i = Some kk ->
-                                 nth (base + length ks + i) (code_consts c) (KInt 0) = kk).
-      { rewrite Ep. cbn [snd]. intros i kk Hik. rewrite <- Nat.add_assoc. apply Hc.
-        rewrite nth_error_app2 by lia. replace (length ks + i - length ks) with i by lia. exact Hik. }
-      destruct (IH rho1 room s1 (base + length ks) Q post v1 Hr2 Hinv1 Hwr Hi2 Hc2 ltac:(lia)) as [n2 [s2 [Hinv2 Hr2']]].
-      rewrite Ep in Hr2'. cbn [fst] in Hr2'.
-      assert (Hglue : exists k, forall f, runs (k + f) (length pre) [] s = runs f (length Q) [] s1).
-      { destruct (P.is_expr_simple m) eqn:Ex; subst pops.
-        - exists (n + 1). intros f. rewrite <- Nat.add_assoc, Hr. cbn [Nat.add].
+      assert (Hc2 : consts_at (base + length ks) (snd (P.pcode (length rho1) (base + length ks) (st2 :: r2))))
+        by (rewrite Ep; exact (consts_r ks kr base Hc)).
+      destruct (IH rho1 room s1 (base + length ks) Q post v1 top r Hr2 Hinv1 Hwr Hi2 Hc2 ltac:(lia) Hr) as [k2 [s2 Hrun2]].
+      rewrite Ep in Hrun2. cbn [fst] in Hrun2.
+      assert (Hglue : exists k0, forall f, runs (k0 + f) (length pre) [] s = runs f (length Q) [] s1).
+      { destruct (P.is_expr_stmt st) eqn:Ex; subst pops.
+        - exists (k + 1). intros f. rewrite <- Nat.add_assoc, Hrun. cbn [Nat.add].
           assert (Hx : instr = (pre ++ cc) ++ opPopTop :: (cr ++ post)) by (rewrite Hi, <- !app_assoc; reflexivity).
           rewrite (step_pop f (length pre + length cc) [] (inj v1) s1) by (rewrite Hx, <- app_length; apply at0).
           rewrite HQ. cbn [length]. replace (length pre + length cc + 1) with (S (length pre + length cc)) by lia. reflexivity.
-        - exists n. intros f. rewrite Hr, HQ. cbn [length]. rewrite Nat.add_0_r. reflexivity. }
-      destruct Hglue as [k Hk].
-      exists (k + n2), s2. split; [exact Hinv2|]. intros f. specialize (Hr2' f).
-      rewrite <- Nat.add_assoc, Hk.
-      destruct (P.run_simples rho1 (m2 :: r2) v1) as [[rho2 vv]|xx].
-      + rewrite Hr2'. rewrite HQ, !app_length. subst pops.
-        replace (length pre + (length cc + (length (if P.is_expr_simple m then [opPopTop] else []) + length cr)))
-          with (length pre + length cc + length (if P.is_expr_simple m then [opPopTop] else []) + length cr) by lia.
-        reflexivity.
-      + exact Hr2'.
+        - exists k. intros f. rewrite Hrun, HQ. cbn [length]. rewrite Nat.add_0_r. reflexivity. }
+      destruct Hglue as [k0 Hk0].
+      exists (k0 + k2), s2.
+      assert (Hpos2 : length pre + length (cc ++ pops ++ cr) = length Q + length cr)
+        by (rewrite HQ, !app_length; lia).
+      destruct r as [[rho2 vv]|xx].
+      + destruct Hrun2 as [Hinv2 Hrun2]. split; [exact Hinv2|]. intros f.
+        rewrite <- Nat.add_assoc, Hk0, Hrun2, Hpos2. reflexivity.
+      + intros f. rewrite <- Nat.add_assoc, Hk0. apply Hrun2.
   Qed.
 
-  (* a whole branch: Nil for an empty one *)
-  Lemma vm_block l rho room s base pre post :
-    vm_inv rho room s -> forallb (P.wf_simple (length rho)) l = true ->
-    instr = pre ++ fst (P.block_code base l) ++ post ->
-    (forall i kk, nth_error (snd (P.block_code base l)) i = Some kk -> nth (base + i) (code_consts c) (KInt 0) = kk) ->
-    below + P.simples_need l <= MAXSTACK ->
-    exists n s',
-      (match P.run_simples rho l F.VNil with inl (rho', _) => vm_inv rho' room s' | inr _ => True end) /\
-      forall f,
-        match P.run_simples rho l F.VNil with
-        | inr x => runs (n + f) (length pre) [] s = (RErr (cls x) s', defers)
-        | inl (rho', v) => runs (n + f) (length pre) [] s =
-                           runs f (length pre + length (fst (P.block_code base l))) [inj v] s'
-        end.
+  (* a whole block: Nil for an empty one *)
+  Lemma vm_block n : stmt_vm n -> forall l rho room s base pre post r,
+    vm_inv rho room s -> P.wf_stmts false (length rho) l = true ->
+    instr = pre ++ fst (P.block_code (length rho) base l) ++ post ->
+    consts_at base (snd (P.block_code (length rho) base l)) ->
+    below + P.max_need l <= MAXSTACK ->
+    P.run_stmts n rho l F.VNil = Some r ->
+    after r room s (length pre) (length pre + length (fst (P.block_code (length rho) base l))) (fun v => [inj v]).
   Proof.
-    intros Hinv Hwf Hi Hc Hn. destruct l as [|m r].
-    - cbn [P.block_code fst snd P.run_simples] in *. exists 1, s. split; [exact Hinv|]. intros f. cbn [Nat.add length].
+    intros Hst l rho room s base pre post r Hinv Hwf Hi Hc Hn Hr. destruct l as [|st r0].
+    - rewrite PF.block_code_nil in *. cbn [fst snd] in *. cbn in Hr. inversion Hr; subst r.
+      exists 1, s. split; [exact Hinv|]. intros f. cbn [Nat.add length].
       rewrite (step_push tabs c below frames free defers is_main s f (length pre) [] opNil VNil);
-        [rewrite Nat.add_1_r; reflexivity|rewrite Hi; apply at0|auto|pose proof (simples_need_pos []); cbn [length]; lia].
-    - assert (Hne : m :: r <> []) by discriminate.
-      exact (vm_simples (m :: r) rho room s base pre post F.VNil Hne Hinv Hwf Hi Hc Hn).
+        [rewrite Nat.add_1_r; reflexivity|rewrite Hi; apply at0|auto|pose proof (PF.max_need_pos []); cbn [length]; lia].
+    - assert (Hne : st :: r0 <> []) by discriminate.
+      rewrite PF.block_code_cons in *.
+      rewrite <- (Nat.add_0_l room) in Hinv. rewrite <- (PF.wf_false_ndecls _ _ Hwf) in Hinv.
+      exact (vm_list n Hst (st :: r0) rho room s base pre post F.VNil false r Hne Hinv Hwf Hi Hc Hn Hr).
   Qed.
-  (* ---------------------------------------------------------------- one top-level statement *)
-  Lemma vm_stmt rho room s st base pre post :
-    vm_inv rho (P.ndecls [st] + room) s -> PF.wf_stmt (length rho) st = true ->
-    instr = pre ++ fst (P.stmt_code (length rho) base st) ++ post ->
-    (forall i kk, nth_error (snd (P.stmt_code (length rho) base st)) i = Some kk -> nth (base + i) (code_consts c) (KInt 0) = kk) ->
-    below + P.stmt_need st <= MAXSTACK ->
-    exists n s',
-      (match P.run_stmt rho st with inl (rho', _) => vm_inv rho' room s' | inr _ => True end) /\
-      forall f,
-        match P.run_stmt rho st with
-        | inr x => runs (n + f) (length pre) [] s = (RErr (cls x) s', defers)
-        | inl (rho', v) => runs (n + f) (length pre) [] s =
-                           runs f (length pre + length (fst (P.stmt_code (length rho) base st)))
-                                (if P.is_expr_stmt st then [inj v] else []) s'
-        end.
+
+  (* the condition loop; kk = number of declared variables (constant while the loop runs) *)
+  Lemma vm_loop cnd b base pre post kk :
+    instr = pre ++ fst (P.stmt_code kk base (P.SWhile cnd b)) ++ post ->
+    consts_at base (snd (P.stmt_code kk base (P.SWhile cnd b))) ->
+    below + P.sneed (P.SWhile cnd b) <= MAXSTACK ->
+    F.wf kk cnd = true -> P.wf_stmts false kk b = true ->
+    forall m, (forall j, j < m -> stmt_vm j) ->
+    forall rho room s r, length rho = kk -> vm_inv rho room s ->
+    P.run_stmt m rho (P.SWhile cnd b) = Some r ->
+    after r room s (length pre) (length pre + length (fst (P.stmt_code kk base (P.SWhile cnd b)))) (fun _ => []).
   Proof.
-    intros Hinv Hwf Hi Hc Hn.
-    destruct st as [e|i e|e|cnd t el]; cbn [P.stmt_code PF.wf_stmt P.is_expr_stmt P.run_stmt P.stmt_need P.ndecls Nat.add] in *.
+    intros Hi Hc Hn Hwc Hwb.
+    rewrite PF.code_SWhile in *. rewrite PF.sneed_SWhile in Hn.
+    destruct (F.cexp base cnd) as [cc kc] eqn:Ec.
+    destruct (P.block_code kk (base + length kc) b) as [cb kb] eqn:Eb. cbn [fst snd] in *.
+    set (off := (F.nlenN cb + 6)%N) in *. set (jb := (F.nlenN cc + 2 + F.nlenN cb + 1)%N) in *.
+    assert (Hoff : N.to_nat off = length cb + 6) by (unfold off, F.nlenN; rewrite N2Nat.inj_add, Nat2N.id; reflexivity).
+    assert (Hjb : N.to_nat jb = length cc + 2 + length cb + 1)
+      by (unfold jb, F.nlenN; rewrite !N2Nat.inj_add, !Nat2N.id; reflexivity).
+    assert (Hlen : length (cc ++ [opPopJumpForwardIfFalse; off] ++ cb ++ [opPopTop; opJumpBackward; jb; opNop]) =
+                   length cc + 2 + length cb + 4) by (rewrite !app_length; cbn [length]; lia).
+    set (Pp := pre ++ cc).
+    assert (HP : length Pp = length pre + length cc) by (unfold Pp; apply app_length).
+    set (Q := Pp ++ [opPopJumpForwardIfFalse; off]).
+    assert (HQ : length Q = length Pp + 2) by (unfold Q; rewrite app_length; reflexivity).
+    set (R := Q ++ cb).
+    assert (HR : length R = length Q + length cb) by (unfold R; apply app_length).
+    assert (Hic : instr = pre ++ fst (F.cexp base cnd) ++ ([opPopJumpForwardIfFalse; off] ++ cb ++ [opPopTop; opJumpBackward; jb; opNop] ++ post))
+      by (rewrite Ec; cbn [fst]; rewrite Hi, <- !app_assoc; reflexivity).
+    assert (Hkc : consts_at base (snd (F.cexp base cnd))) by (rewrite Ec; exact (consts_l kc kb base Hc)).
+    assert (Hc1 : instr = Pp ++ opPopJumpForwardIfFalse :: off :: (cb ++ [opPopTop; opJumpBackward; jb; opNop] ++ post))
+      by (rewrite Hi; unfold Pp; rewrite <- !app_assoc; reflexivity).
+    assert (Hib : instr = Q ++ fst (P.block_code kk (base + length kc) b) ++ ([opPopTop; opJumpBackward; jb; opNop] ++ post))
+      by (rewrite Eb; cbn [fst]; rewrite Hi; unfold Q, Pp; rewrite <- !app_assoc; reflexivity).
+    assert (Hkb : consts_at (base + length kc) (snd (P.block_code kk (base + length kc) b)))
+      by (rewrite Eb; exact (consts_r kc kb base Hc)).
+    assert (Hpop : instr = R ++ opPopTop :: (opJumpBackward :: jb :: opNop :: post))
+      by (rewrite Hi; unfold R, Q, Pp; rewrite <- !app_assoc; reflexivity).
+    assert (Hjmp : instr = (R ++ [opPopTop]) ++ opJumpBackward :: jb :: (opNop :: post))
+      by (rewrite Hi; unfold R, Q, Pp; rewrite <- !app_assoc; reflexivity).
+    assert (HR1 : length (R ++ [opPopTop]) = S (length R)) by (rewrite app_length; cbn [length]; lia).
+    induction m as [|m IH]; intros Hst rho room s r Hkk Hinv Hr; [discriminate|].
+    rewrite PF.run_SWhile in Hr.
+    pose proof (vm_inv_globals_ok rho room s Hinv) as Hg.
+    rewrite <- Hkk in Hwc.
+    destruct (vm_scalar tabs c below frames free defers is_main s rho Hg cnd base pre _ [] Hwc Hic Hkc ltac:(cbn [length]; lia)) as [n1 Hr1].
+    rewrite Ec in Hr1. cbn [fst] in Hr1. unfold outcome_of in Hr1. rewrite <- HP in Hr1.
+    destruct (F.sev rho cnd) as [vc|xc].
+    2:{ inversion Hr; subst r. exists n1, s. exact Hr1. }
+    assert (Hs1 : forall f, runs (S f) (length Pp) [inj vc] s =
+                            runs f (if F.struthy vc then length Pp + 2 else length Pp + (length cb + 6)) [] s).
+    { intros f.
+      rewrite (step_popjump tabs c below frames free defers is_main s f (length Pp) [] (inj vc) (F.struthy vc) opPopJumpForwardIfFalse);
+        [|rewrite Hc1; apply at0|auto|apply truthy_inj].
+      assert (E : nth (length Pp + 1) instr 0%N = off) by (rewrite Hc1; apply at1).
+      rewrite E, Hoff. change (opPopJumpForwardIfFalse =? 12)%N with true. cbn iota.
+      destruct (F.struthy vc); reflexivity. }
+    destruct (F.struthy vc) eqn:Etr.
+    2:{ (* the loop ends *)
+        inversion Hr; subst r. exists (n1 + 1), s. split; [exact Hinv|]. intros f.
+        rewrite <- Nat.add_assoc, Hr1. cbn [Nat.add]. rewrite Hs1, Hlen, HP.
+        replace (length pre + length cc + (length cb + 6)) with (length pre + (length cc + 2 + length cb + 4)) by lia.
+        reflexivity. }
+    (* one round: body, PopTop, JumpBackward *)
+    rewrite <- Hkk in Hwb, Hib, Hkb.
+    destruct (P.run_stmts m rho b F.VNil) as [[[rho1 v1]|xb]|] eqn:Erb; [| |discriminate].
+    - destruct (vm_block m (Hst m ltac:(lia)) b rho room s (base + length kc) Q _ _ Hinv Hwb Hib Hkb ltac:(lia) Erb)
+        as [n2 [s1 [Hinv1 Hr2]]].
+      rewrite Hkk, Eb in Hr2. cbn [fst] in Hr2.
+      pose proof (PF.run_stmts_length m b rho F.VNil rho1 v1 Hwb Erb) as Hl1.
+      destruct (IH ltac:(intros j Hj; apply Hst; lia) rho1 room s1 r ltac:(lia) Hinv1 Hr) as [n3 [s3 Hr3]].
+      assert (Hround : forall f, runs (n1 + (1 + (n2 + (1 + (1 + f))))) (length pre) [] s = runs f (length pre) [] s1).
+      { intros f. rewrite Hr1. replace (1 + (n2 + (1 + (1 + f)))) with (S (n2 + (S (S f)))) by lia.
+        rewrite Hs1, <- HQ, Hr2, <- HR.
+        rewrite (step_pop (S f) (length R) [] (inj v1) s1) by (rewrite Hpop; apply at0).
+        rewrite (step_jumpback f (S (length R)) [] s1) by (rewrite Hjmp, <- HR1; apply at0).
+        assert (E : nth (S (length R) + 1) instr 0%N = jb) by (rewrite Hjmp, <- HR1; apply at1).
+        rewrite E, Hjb, HR, HQ, HP.
+        replace (S (length pre + length cc + 2 + length cb) - (length cc + 2 + length cb + 1)) with (length pre) by lia.
+        reflexivity. }
+      exists (n1 + (1 + (n2 + (1 + (1 + n3))))), s3.
+      destruct r as [[rho3 v3]|x3].
+      + destruct Hr3 as [Hinv3 Hr3]. split; [exact Hinv3|]. intros f.
+        replace (n1 + (1 + (n2 + (1 + (1 + n3)))) + f) with (n1 + (1 + (n2 + (1 + (1 + (n3 + f)))))) by lia.
+        rewrite Hround. apply Hr3.
+      + intros f. replace (n1 + (1 + (n2 + (1 + (1 + n3)))) + f) with (n1 + (1 + (n2 + (1 + (1 + (n3 + f)))))) by lia.
+        rewrite Hround. apply Hr3.
+    - destruct (vm_block m (Hst m ltac:(lia)) b rho room s (base + length kc) Q _ _ Hinv Hwb Hib Hkb ltac:(lia) Erb)
+        as [n2 [s1 Hr2]].
+      inversion Hr; subst r. exists (n1 + (1 + n2)), s1. intros f.
+      rewrite <- Nat.add_assoc, Hr1. replace (1 + n2 + f) with (S (n2 + f)) by lia. rewrite Hs1, <- HQ. apply Hr2.
+  Qed.
+
+  Theorem vm_stmt : forall n, stmt_vm n.
+  Proof.
+    induction n as [n IH] using lt_wf_ind.
+    destruct n as [|n]; [intros st rho room s base pre post top r _ _ _ _ _ Hr; discriminate|].
+    intros st rho room s base pre post top r Hinv Hwf Hi Hc Hn Hr.
+    destruct st as [e|i e|e|cnd t el|cnd b].
     - (* x := e *)
-      pose proof (vm_inv_globals_ok rho _ s Hinv) as Hg.
+      cbn [P.stmt_code P.wf_stmt P.is_expr_stmt P.run_stmt P.sneed P.ndecls Nat.add] in *.
+      apply andb_true_iff in Hwf. destruct Hwf as [_ Hwf].
       destruct (F.cexp base e) as [ce ke] eqn:Ee. cbn [fst snd] in *.
-      assert (Hi' : instr = pre ++ fst (F.cexp base e) ++ ([opStoreGlobal; N.of_nat (length rho)] ++ post))
+      assert (Hi' : instr = pre ++ fst (F.cexp base e) ++ [opStoreGlobal; N.of_nat (length rho)] ++ post)
         by (rewrite Ee; cbn [fst]; rewrite Hi, <- !app_assoc; reflexivity).
-      assert (Hc' : forall i kk, nth_error (snd (F.cexp base e)) i = Some kk -> nth (base + i) (code_consts c) (KInt 0) = kk)
-        by (rewrite Ee; exact Hc).
-      destruct (vm_scalar tabs c below frames free defers is_main s rho Hg e base pre _ [] Hwf Hi' Hc' ltac:(cbn [length]; lia)) as [n Hr].
-      rewrite Ee in Hr. cbn [fst] in Hr. unfold outcome_of in Hr.
-      destruct (F.sev rho e) as [v|x].
-      + exists (n + 1), (upd_globals s (lset (globals s) (length rho) (inj v))).
-        split; [apply vm_inv_decl; exact Hinv|]. intros f.
-        rewrite <- Nat.add_assoc, Hr. cbn [Nat.add].
-        assert (Hx : instr = (pre ++ ce) ++ opStoreGlobal :: N.of_nat (length rho) :: post) by (rewrite Hi, <- !app_assoc; reflexivity).
-        rewrite (step_store f (length pre + length ce) [] (inj v) s) by (rewrite Hx, <- app_length; apply at0).
-        assert (E : nth (length pre + length ce + 1) instr 0%N = N.of_nat (length rho)) by (rewrite Hx, <- app_length; apply at1).
-        rewrite E, Nat2N.id, app_length. cbn [length].
-        replace (length pre + (length ce + 2)) with (length pre + length ce + 2) by lia. reflexivity.
-      + exists n, s. split; [exact Logic.I|]. intros f. exact (Hr f).
+      assert (Hc' : consts_at base (snd (F.cexp base e))) by (rewrite Ee; exact Hc).
+      destruct (vm_store rho _ s e base pre post (length rho) Hinv Hwf Hi' Hc' Hn) as [k Hk].
+      rewrite Ee in Hk. cbn [fst] in Hk.
+      destruct (F.sev rho e) as [v|x]; inversion Hr; subst r.
+      + exists k, (upd_globals s (lset (globals s) (length rho) (inj v))).
+        split; [apply vm_inv_decl; exact Hinv|exact Hk].
+      + exists k, s. exact Hk.
     - (* x = e *)
-      exact (vm_simple rho room s (P.MSet i e) base pre post Hinv Hwf Hi Hc Hn).
+      cbn [P.stmt_code P.wf_stmt P.is_expr_stmt P.run_stmt P.sneed P.ndecls Nat.add] in *.
+      apply andb_true_iff in Hwf. destruct Hwf as [Hilt Hwf]. apply Nat.ltb_lt in Hilt.
+      destruct (F.cexp base e) as [ce ke] eqn:Ee. cbn [fst snd] in *.
+      assert (Hi' : instr = pre ++ fst (F.cexp base e) ++ [opStoreGlobal; N.of_nat i] ++ post)
+        by (rewrite Ee; cbn [fst]; rewrite Hi, <- !app_assoc; reflexivity).
+      assert (Hc' : consts_at base (snd (F.cexp base e))) by (rewrite Ee; exact Hc).
+      destruct (vm_store rho _ s e base pre post i Hinv Hwf Hi' Hc' Hn) as [k Hk].
+      rewrite Ee in Hk. cbn [fst] in Hk.
+      destruct (F.sev rho e) as [v|x]; inversion Hr; subst r.
+      + exists k, (upd_globals s (lset (globals s) i (inj v))).
+        split; [apply vm_inv_set; assumption|exact Hk].
+      + exists k, s. exact Hk.
     - (* e *)
-      exact (vm_simple rho room s (P.MExpr e) base pre post Hinv Hwf Hi Hc Hn).
+      cbn [P.stmt_code P.wf_stmt P.is_expr_stmt P.run_stmt P.sneed P.ndecls Nat.add] in *.
+      pose proof (vm_inv_globals_ok rho _ s Hinv) as Hg.
+      destruct (vm_scalar tabs c below frames free defers is_main s rho Hg e base pre post [] Hwf Hi Hc ltac:(cbn [length]; lia)) as [k Hk].
+      unfold outcome_of in Hk. exists k, s.
+      destruct (F.sev rho e) as [v|x]; inversion Hr; subst r; [split; [exact Hinv|]|]; exact Hk.
     - (* if *)
       pose proof (vm_inv_globals_ok rho _ s Hinv) as Hg.
-      apply andb_true_iff in Hwf. destruct Hwf as [Hwct Hwe]. apply andb_true_iff in Hwct. destruct Hwct as [Hwc Hwt].
+      rewrite PF.wf_SIf in Hwf. apply andb_true_iff in Hwf. destruct Hwf as [Hwct Hwe].
+      apply andb_true_iff in Hwct. destruct Hwct as [Hwc Hwt].
+      rewrite PF.code_SIf in *. rewrite PF.sneed_SIf in Hn. rewrite PF.run_SIf in Hr.
+      cbn [P.ndecls Nat.add P.is_expr_stmt] in *.
       destruct (F.cexp base cnd) as [cc kc] eqn:Ec.
-      destruct (P.block_code (base + length kc) t) as [ct kt] eqn:Et.
-      destruct (P.block_code (base + length kc + length kt) el) as [ce ke] eqn:Ee. cbn [fst snd] in *.
+      destruct (P.block_code (length rho) (base + length kc) t) as [ct kt] eqn:Et.
+      destruct (P.block_code (length rho) (base + length kc + length kt) el) as [ce ke] eqn:Ee. cbn [fst snd] in *.
       set (offF := (F.nlenN ct + 4)%N) in *. set (offJ := (F.nlenN ce + 2)%N) in *.
       assert (HoffF : N.to_nat offF = length ct + 4) by (unfold offF, F.nlenN; rewrite N2Nat.inj_add, Nat2N.id; reflexivity).
       assert (HoffJ : N.to_nat offJ = length ce + 2) by (unfold offJ, F.nlenN; rewrite N2Nat.inj_add, Nat2N.id; reflexivity).
@@ -278,12 +388,11 @@ Section VarVM.
       (* the condition *)
       assert (Hic : instr = pre ++ fst (F.cexp base cnd) ++ ([opPopJumpForwardIfFalse; offF] ++ ct ++ [opJumpForward; offJ] ++ ce ++ post))
         by (rewrite Ec; cbn [fst]; rewrite Hi, <- !app_assoc; reflexivity).
-      assert (Hkc : forall i kk, nth_error (snd (F.cexp base cnd)) i = Some kk -> nth (base + i) (code_consts c) (KInt 0) = kk).
-      { rewrite Ec. cbn [snd]. intros i kk Hik. apply Hc. rewrite nth_error_app1; [exact Hik|]. apply nth_error_Some. congruence. }
+      assert (Hkc : consts_at base (snd (F.cexp base cnd))) by (rewrite Ec; exact (consts_l kc (kt ++ ke) base Hc)).
       destruct (vm_scalar tabs c below frames free defers is_main s rho Hg cnd base pre _ [] Hwc Hic Hkc ltac:(cbn [length]; lia)) as [n1 Hr1].
       rewrite Ec in Hr1. cbn [fst] in Hr1. unfold outcome_of in Hr1.
       destruct (F.sev rho cnd) as [vc|xc].
-      2:{ exists n1, s. split; [exact Logic.I|]. intros f. exact (Hr1 f). }
+      2:{ inversion Hr; subst r. exists n1, s. exact Hr1. }
       set (Pp := pre ++ cc).
       assert (HP : length Pp = length pre + length cc) by (unfold Pp; apply app_length).
       assert (Hc1 : instr = Pp ++ opPopJumpForwardIfFalse :: offF :: (ct ++ [opJumpForward; offJ] ++ ce ++ post))
@@ -296,22 +405,20 @@ Section VarVM.
         assert (E : nth (length Pp + 1) instr 0%N = offF) by (rewrite Hc1; apply at1).
         rewrite E, HoffF. change (opPopJumpForwardIfFalse =? 12)%N with true. cbn iota.
         destruct (F.struthy vc); reflexivity. }
-      assert (Hkrest : forall i kk, nth_error (kt ++ ke) i = Some kk -> nth (base + length kc + i) (code_consts c) (KInt 0) = kk).
-      { intros i kk Hik. rewrite <- Nat.add_assoc. apply Hc.
-        rewrite nth_error_app2 by lia. replace (length kc + i - length kc) with i by lia. exact Hik. }
+      pose proof (consts_r kc (kt ++ ke) base Hc) as Hkrest.
       destruct (F.struthy vc) eqn:Etr.
       + (* then-branch, followed by the jump over the else-branch *)
         set (Q := Pp ++ [opPopJumpForwardIfFalse; offF]).
         assert (HQ : length Q = length Pp + 2) by (unfold Q; rewrite app_length; reflexivity).
-        assert (Hit : instr = Q ++ fst (P.block_code (base + length kc) t) ++ ([opJumpForward; offJ] ++ ce ++ post))
+        assert (Hit : instr = Q ++ fst (P.block_code (length rho) (base + length kc) t) ++ ([opJumpForward; offJ] ++ ce ++ post))
           by (rewrite Et; cbn [fst]; rewrite Hi; unfold Q, Pp; rewrite <- !app_assoc; reflexivity).
-        assert (Hkt : forall i kk, nth_error (snd (P.block_code (base + length kc) t)) i = Some kk ->
-                                   nth (base + length kc + i) (code_consts c) (KInt 0) = kk).
-        { rewrite Et. cbn [snd]. intros i kk Hik. apply Hkrest. rewrite nth_error_app1; [exact Hik|]. apply nth_error_Some. congruence. }
-        destruct (vm_block t rho room s (base + length kc) Q _ Hinv Hwt Hit Hkt ltac:(lia)) as [n2 [s2 [Hinv2 Hr2]]].
+        assert (Hkt : consts_at (base + length kc) (snd (P.block_code (length rho) (base + length kc) t)))
+          by (rewrite Et; exact (consts_l kt ke _ Hkrest)).
+        destruct (vm_block n (IH n ltac:(lia)) t rho room s (base + length kc) Q _ r Hinv Hwt Hit Hkt ltac:(lia) Hr) as [n2 [s2 Hr2]].
         rewrite Et in Hr2. cbn [fst] in Hr2. rewrite HQ in Hr2.
-        destruct (P.run_simples rho t F.VNil) as [[rho' v]|x].
-        * exists (n1 + (1 + (n2 + 1))), s2. split; [exact Hinv2|]. intros f.
+        destruct r as [[rho' v]|x].
+        * destruct Hr2 as [Hinv2 Hr2].
+          exists (n1 + (1 + (n2 + 1))), s2. split; [exact Hinv2|]. intros f.
           rewrite <- Nat.add_assoc, Hr1, <- HP.
           replace (1 + (n2 + 1) + f) with (S (n2 + S f)) by lia. rewrite Hs1, Hr2.
           assert (Hj : instr = (Q ++ ct) ++ opJumpForward :: offJ :: (ce ++ post))
@@ -322,112 +429,38 @@ Section VarVM.
           rewrite E, HoffJ, Hlen.
           replace (length pre + (length cc + 2 + length ct + 2 + length ce)) with (length Pp + 2 + length ct + (length ce + 2)) by lia.
           reflexivity.
-        * exists (n1 + (1 + n2)), s2. split; [exact Logic.I|]. intros f.
+        * exists (n1 + (1 + n2)), s2. intros f.
           rewrite <- Nat.add_assoc, Hr1, <- HP. replace (1 + n2 + f) with (S (n2 + f)) by lia. rewrite Hs1. exact (Hr2 f).
       + (* else-branch *)
         set (Q := Pp ++ [opPopJumpForwardIfFalse; offF] ++ ct ++ [opJumpForward; offJ]).
         assert (HQ : length Q = length Pp + (length ct + 4)) by (unfold Q; rewrite !app_length; cbn [length]; lia).
-        assert (Hie : instr = Q ++ fst (P.block_code (base + length kc + length kt) el) ++ post)
+        assert (Hie : instr = Q ++ fst (P.block_code (length rho) (base + length kc + length kt) el) ++ post)
           by (rewrite Ee; cbn [fst]; rewrite Hi; unfold Q, Pp; rewrite <- !app_assoc; reflexivity).
-        assert (Hke : forall i kk, nth_error (snd (P.block_code (base + length kc + length kt) el)) i = Some kk ->
-                                   nth (base + length kc + length kt + i) (code_consts c) (KInt 0) = kk).
-        { rewrite Ee. cbn [snd]. intros i kk Hik. rewrite <- Nat.add_assoc. apply Hkrest.
-          rewrite nth_error_app2 by lia. replace (length kt + i - length kt) with i by lia. exact Hik. }
-        destruct (vm_block el rho room s (base + length kc + length kt) Q post Hinv Hwe Hie Hke ltac:(lia)) as [n2 [s2 [Hinv2 Hr2]]].
+        assert (Hke : consts_at (base + length kc + length kt) (snd (P.block_code (length rho) (base + length kc + length kt) el)))
+          by (rewrite Ee; exact (consts_r kt ke _ Hkrest)).
+        destruct (vm_block n (IH n ltac:(lia)) el rho room s (base + length kc + length kt) Q post r Hinv Hwe Hie Hke ltac:(lia) Hr) as [n2 [s2 Hr2]].
         rewrite Ee in Hr2. cbn [fst] in Hr2. rewrite HQ in Hr2.
-        exists (n1 + (1 + n2)), s2. split; [exact Hinv2|]. intros f.
-        rewrite <- Nat.add_assoc, Hr1, <- HP. replace (1 + n2 + f) with (S (n2 + f)) by lia. rewrite Hs1.
-        specialize (Hr2 f). destruct (P.run_simples rho el F.VNil) as [[rho' v]|x]; [|exact Hr2].
-        rewrite Hr2, Hlen.
-        replace (length pre + (length cc + 2 + length ct + 2 + length ce)) with (length Pp + (length ct + 4) + length ce) by lia.
-        reflexivity.
+        exists (n1 + (1 + n2)), s2.
+        destruct r as [[rho' v]|x].
+        * destruct Hr2 as [Hinv2 Hr2]. split; [exact Hinv2|]. intros f.
+          rewrite <- Nat.add_assoc, Hr1, <- HP. replace (1 + n2 + f) with (S (n2 + f)) by lia. rewrite Hs1.
+          rewrite Hr2, Hlen.
+          replace (length pre + (length cc + 2 + length ct + 2 + length ce)) with (length Pp + (length ct + 4) + length ce) by lia.
+          reflexivity.
+        * intros f. rewrite <- Nat.add_assoc, Hr1, <- HP. replace (1 + n2 + f) with (S (n2 + f)) by lia. rewrite Hs1. exact (Hr2 f).
+    - (* for *)
+      rewrite PF.wf_SWhile in Hwf. apply andb_true_iff in Hwf. destruct Hwf as [Hwc Hwb].
+      cbn [P.ndecls Nat.add P.is_expr_stmt] in *.
+      exact (vm_loop cnd b base pre post (length rho) Hi Hc Hn Hwc Hwb (S n) ltac:(intros j Hj; apply IH; lia)
+               rho room s r eq_refl Hinv Hr).
   Qed.
 
-  (* ---------------------------------------------------------------- the whole statement list *)
-  Lemma stmt_need_pos st : 1 <= P.stmt_need st.
-  Proof. destruct st as [e|i e|e|cnd t el]; cbn [P.stmt_need]; try apply need_pos. pose proof (need_pos cnd). lia. Qed.
-
-  Lemma vm_prog : forall l rho s base pre post last,
-    l <> [] -> vm_inv rho (P.ndecls l) s -> P.wf_stmts (length rho) l = true ->
+  Lemma vm_prog n : forall l rho room s base pre post last r,
+    l <> [] -> vm_inv rho (P.ndecls l + room) s -> P.wf_stmts true (length rho) l = true ->
     instr = pre ++ fst (P.pcode (length rho) base l) ++ post ->
-    (forall i kk, nth_error (snd (P.pcode (length rho) base l)) i = Some kk -> nth (base + i) (code_consts c) (KInt 0) = kk) ->
+    consts_at base (snd (P.pcode (length rho) base l)) ->
     below + P.max_need l <= MAXSTACK ->
-    exists n s', forall f,
-      match P.run_stmts rho l last with
-      | inr x => runs (n + f) (length pre) [] s = (RErr (cls x) s', defers)
-      | inl v => runs (n + f) (length pre) [] s = runs f (length pre + length (fst (P.pcode (length rho) base l))) [inj v] s'
-      end.
-  Proof.
-    induction l as [|st r IH]; intros rho s base pre post last Hne Hinv Hwf Hi Hc Hn; [contradiction|].
-    rewrite PF.wf_stmts_cons in Hwf. apply andb_true_iff in Hwf. destruct Hwf as [Hws Hwr].
-    pose proof (stmt_need_pos st) as Hpos.
-    rewrite PF.max_need_cons in Hn. rewrite PF.run_stmts_cons.
-    assert (Hd : P.ndecls (st :: r) = P.ndecls [st] + P.ndecls r) by (destruct st; reflexivity).
-    rewrite Hd in Hinv.
-    destruct r as [|st2 r2].
-    - (* the last statement *)
-      rewrite PF.pcode_single in Hi, Hc |- *.
-      destruct (P.stmt_code (length rho) base st) as [cc ks] eqn:Es. cbn [fst snd] in *.
-      assert (Hi' : instr = pre ++ fst (P.stmt_code (length rho) base st) ++ ((if P.is_expr_stmt st then [] else [opNil]) ++ post))
-        by (rewrite Es; cbn [fst]; rewrite Hi, <- !app_assoc; reflexivity).
-      assert (Hc' : forall i kk, nth_error (snd (P.stmt_code (length rho) base st)) i = Some kk -> nth (base + i) (code_consts c) (KInt 0) = kk)
-        by (rewrite Es; exact Hc).
-      destruct (vm_stmt rho _ s st base pre _ Hinv Hws Hi' Hc' ltac:(lia)) as [n [s1 [_ Hr]]].
-      rewrite Es in Hr. cbn [fst] in Hr.
-      destruct (P.run_stmt rho st) as [[rho1 v1]|x] eqn:Er.
-      + cbn [P.run_stmts].
-        destruct (P.is_expr_stmt st) eqn:Ex.
-        * exists n, s1. intros f. rewrite Hr, app_nil_r. reflexivity.
-        * exists (n + 1), s1. intros f. rewrite <- Nat.add_assoc, Hr. cbn [Nat.add].
-          assert (Hx : instr = (pre ++ cc) ++ opNil :: post) by (rewrite Hi, <- !app_assoc; reflexivity).
-          rewrite (step_push tabs c below frames free defers is_main s1 f (length pre + length cc) [] opNil VNil);
-            [|rewrite Hx, <- app_length; apply at0|auto|cbn [length]; lia].
-          rewrite app_length. cbn [length].
-          replace (length pre + (length cc + 1)) with (S (length pre + length cc)) by lia.
-          destruct st as [e|i e|e|cnd t el]; try discriminate; cbn [P.run_stmt] in Er;
-            destruct (F.sev rho e); inversion Er; reflexivity.
-      + exists n, s1. intros f. exact (Hr f).
-    - (* more statements follow *)
-      assert (Hr2 : st2 :: r2 <> []) by discriminate.
-      rewrite PF.pcode_cons2 in Hi, Hc |- *.
-      destruct (P.stmt_code (length rho) base st) as [cc ks] eqn:Es.
-      destruct (P.pcode (PF.next_k (length rho) st) (base + length ks) (st2 :: r2)) as [cr kr] eqn:Ep. cbn [fst snd] in *.
-      set (pops := if P.is_expr_stmt st then [opPopTop] else []) in *.
-      assert (Hi' : instr = pre ++ fst (P.stmt_code (length rho) base st) ++ (pops ++ cr ++ post))
-        by (rewrite Es; cbn [fst]; rewrite Hi, <- !app_assoc; reflexivity).
-      assert (Hc' : forall i kk, nth_error (snd (P.stmt_code (length rho) base st)) i = Some kk -> nth (base + i) (code_consts c) (KInt 0) = kk).
-      { rewrite Es. cbn [snd]. intros i kk Hik. apply Hc. rewrite nth_error_app1; [exact Hik|]. apply nth_error_Some. congruence. }
-      destruct (vm_stmt rho _ s st base pre _ Hinv Hws Hi' Hc' ltac:(lia)) as [n [s1 [Hinv1 Hr]]].
-      rewrite Es in Hr. cbn [fst] in Hr.
-      destruct (P.run_stmt rho st) as [[rho1 v1]|x] eqn:Er.
-      2:{ exists n, s1. intros f. exact (Hr f). }
-      pose proof (PF.run_stmt_length rho st rho1 v1 Er) as Hlen1.
-      set (Q := pre ++ cc ++ pops).
-      assert (HQ : length Q = length pre + length cc + length pops) by (unfold Q; rewrite !app_length; lia).
-      rewrite <- Hlen1 in Ep, Hwr.
-      assert (Hi2 : instr = Q ++ fst (P.pcode (length rho1) (base + length ks) (st2 :: r2)) ++ post)
-        by (rewrite Ep; cbn [fst]; rewrite Hi; unfold Q; rewrite <- !app_assoc; reflexivity).
-      assert (Hc2 : forall i kk, nth_error (snd (P.pcode (length rho1) (base + length ks) (st2 :: r2))) i = Some kk ->
-                                 nth (base + length ks + i) (code_consts c) (KInt 0) = kk).
-      { rewrite Ep. cbn [snd]. intros i kk Hik. rewrite <- Nat.add_assoc. apply Hc.
-        rewrite nth_error_app2 by lia. replace (length ks + i - length ks) with i by lia. exact Hik. }
-      destruct (IH rho1 s1 (base + length ks) Q post v1 Hr2 Hinv1 Hwr Hi2 Hc2 ltac:(lia)) as [n2 [s2 Hr2']].
-      rewrite Ep in Hr2'. cbn [fst] in Hr2'.
-      assert (Hglue : exists k, forall f, runs (k + f) (length pre) [] s = runs f (length Q) [] s1).
-      { destruct (P.is_expr_stmt st) eqn:Ex; subst pops.
-        - exists (n + 1). intros f. rewrite <- Nat.add_assoc, Hr. cbn [Nat.add].
-          assert (Hx : instr = (pre ++ cc) ++ opPopTop :: (cr ++ post)) by (rewrite Hi, <- !app_assoc; reflexivity).
-          rewrite (step_pop f (length pre + length cc) [] (inj v1) s1) by (rewrite Hx, <- app_length; apply at0).
-          rewrite HQ. cbn [length]. replace (length pre + length cc + 1) with (S (length pre + length cc)) by lia. reflexivity.
-        - exists n. intros f. rewrite Hr, HQ. cbn [length]. rewrite Nat.add_0_r. reflexivity. }
-      destruct Hglue as [k Hk].
-      exists (k + n2), s2. intros f. specialize (Hr2' f).
-      rewrite <- Nat.add_assoc, Hk.
-      destruct (P.run_stmts rho1 (st2 :: r2) v1) as [vv|xx].
-      + rewrite Hr2'. rewrite HQ, !app_length. subst pops.
-        replace (length pre + (length cc + (length (if P.is_expr_stmt st then [opPopTop] else []) + length cr)))
-          with (length pre + length cc + length (if P.is_expr_stmt st then [opPopTop] else []) + length cr) by lia.
-        reflexivity.
-      + exact Hr2'.
-  Qed.
+    P.run_stmts n rho l last = Some r ->
+    after r room s (length pre) (length pre + length (fst (P.pcode (length rho) base l))) (fun v => [inj v]).
+  Proof. intros l rho room s base pre post last r. exact (vm_list n (vm_stmt n) l rho room s base pre post last true r). Qed.
 End VarVM.
